@@ -434,3 +434,48 @@ package composite
 //@   assert [C04:final-desired-state-is-the-last-steps-output] steps > 0 ==> (($prevRsp != nil ==> $s == $prevRsp.Desired) && ($prevRsp == nil ==> $s == nil))
 //@ site (names.NameGenerator).GenerateName(_, _, $cd)
 //@   assert [C01:name-generated-only-for-a-resource-without-one] $cd.GetName() == ""
+
+// C03 / C02 (garbage collection is exact): the resources that are relabelled and deleted are
+// exactly observed resources whose name is absent from the desired state, each only if it has no
+// controller or is controlled by the owner; a resource somebody else controls stops the
+// collection with an error before it is touched.
+//@ func (*composite.DeletingComposedResourceGarbageCollector).GarbageCollectComposedResources
+//@ props C03 C02
+//@ requires d != nil && owner != nil
+//@ loop range observed
+//@   invariant [C03:collected-are-observed-but-not-desired] forall k:Str :: k in del ==> (k in observed && !(k in desired) && del[k] == observed[k])
+//@   invariant [C03:every-undesired-observed-resource-is-collected] forall k:Str :: k in visited && !(k in desired) ==> k in del
+//@ loop range del
+//@   invariant [C03:collected-set-unchanged-while-deleting] forall k:Str :: k in del ==> (k in observed && !(k in desired))
+//@ site (client.Writer).Update(_, _, $o, $uo...)
+//@   assert [C03:only-undesired-observed-resources-are-relabelled] $o == cd.Resource && name in observed && !(name in desired)
+//@   assert [C02:never-relabel-what-another-owner-controls] metav1.GetControllerOf(cd.Resource) == nil || metav1.GetControllerOf(cd.Resource).UID == owner.GetUID()
+//@ site (client.Writer).Delete(_, _, $o, $do...)
+//@   assert [C03:only-undesired-observed-resources-are-deleted] $o == cd.Resource && name in observed && !(name in desired)
+//@   assert [C02:never-delete-what-another-owner-controls] metav1.GetControllerOf(cd.Resource) == nil || metav1.GetControllerOf(cd.Resource).UID == owner.GetUID()
+
+// C02 / C04 (observation): a referenced resource that somebody else controls is treated as absent
+// - it never enters the observed state, so it is neither sent to functions as ours nor updated or
+// garbage collected; everything that does enter was read for a reference of this XR.
+//@ func (*composite.ExistingComposedResourceObserver).ObserveComposedResources
+//@ props C02 C04
+//@ requires g != nil && xr != nil
+//@ optional site builtin.mapupdate($m, $k, $v) as observe
+//@   where $m == ors
+//@   assert [C02:observed-resources-are-ours-or-uncontrolled] metav1.GetControllerOf(r) == nil || metav1.GetControllerOf(r).UID == xr.GetUID()
+//@   assert [C04:observed-entry-is-the-resource-read-for-this-reference] $v.Resource == r && $v.ConnectionDetails == conn && $k == name && $k != ""
+
+// C01 (references): one reference per desired resource, to that resource, and exactly the list
+// that was built is what is set on the XR.
+//@ func composite.UpdateResourceRefs
+//@ props C01
+//@ frame writes xr
+//@ requires xr != nil
+//@ optional site builtin.append($to, $add...) as add-reference
+//@   where $to == refs
+//@   assert [C01:reference-points-at-the-desired-resource] len($add) == 1 && $add[0].Name == dr.Resource.GetName() && $add[0].Namespace == dr.Resource.GetNamespace()
+//@ loop range desired
+//@   invariant [C01:one-reference-per-desired-resource] len(refs) == nvisited
+//@   invariant [C01:aux-reference-list-is-ours] callerfresh(&refs[0])
+//@ site *.SetResourceReferences(_, $r)
+//@   assert [C01:the-built-list-is-what-is-set] $r == refs && len($r) == len(desired)
